@@ -226,7 +226,14 @@ class Ctx:
             sites = show_diff(*self._last_nf)
         except Exception:
             sites = []
-        where = ("differs at (code vs reference): " + " ; ".join(sites) + " || ") if sites else ""
+        try:
+            from .nf import diff_stats
+
+            ns, mx, tot = diff_stats(*self._last_nf)
+            stat = f"[sites={ns} max={mx} total={tot}] "
+        except Exception:
+            stat = ""
+        where = (stat + "differs at (code vs reference): " + " ; ".join(sites) + " || ") if sites else ""
         return self.ob(rule, instance, False, f"{where}code: {sa[:500]}  ≠  reference: {sb[:500]}", site, config)
 
     def shape_is(self, rule, instance, v, dims, site="", config=""):
